@@ -283,6 +283,7 @@ def cascade_data_body():
             # ad hoc cascade whose stages share their first constituent
             cascade = {"known": ["dx", "tx", "lost"], "in care or lost": ["dx", "lost"], "diagnosed": ["dx"]}
             out, t = acs.get_cascade_data(data, P.framework, cascade, pops="all", year=years)
+            out_desc, t_desc = acs.get_cascade_data(data, P.framework, cascade, pops="all", year=list(reversed(years)))
         for stage, members in cascade.items():
             for k, y in enumerate(years):
                 tot = 0.0
@@ -290,6 +291,9 @@ def cascade_data_body():
                     for pop in names:
                         tot = tot + vals[(code, pop)][k]
                 env.claim("data_cascade|%s|%g" % (stage, y), env.eq(out[stage][k], tot), key="cascade_data")
+                # the same entries whatever the order in which the years are asked for (values are reported against the years returned)
+                kd = [i for i, ty in enumerate(t_desc) if float(ty) == y]
+                env.claim("data_cascade_years_in_descending_order|%s|%g" % (stage, y), env.true(len(kd) == 1) & (env.eq(out_desc[stage][kd[0]], tot) if len(kd) == 1 else env.true(False)), key="cascade_data_year_order")
 
     return body
 
@@ -330,6 +334,47 @@ def cascade_data_ragged_body():
                     for p in parts:
                         tot = tot + p
                     env.claim("data_cascade|%s|%g" % (stage, y), env.true(not (isinstance(got, (float, np.floating)) and math.isnan(got))) & env.eq(got, tot), key="cascade_data")
+
+    return body
+
+
+def transfer_flows_body():
+    """Flow selectors in a model with transfers between populations: everything leaving a compartment ('tx:') is the sum of the flows
+    to each destination ('tx:lost', and 'tx:tx' = the transfers out of this population's tx into the same compartment elsewhere)"""
+
+    def body(env):
+        import atomica.plotting as apl
+        import atomica.results as ares
+
+        am, ap, au, apar, afp = mr.modules()
+        with _patch(env):
+            P = project("M12t", 3, 0.25, pops=2, transfers=1)
+            m = am.Model(P.settings, P.framework, P.parsets[0])
+            T = len(m.t)
+            for pop in m.pops:
+                for var in pop.comps + pop.pars + pop.links:
+                    nm = var.name if not isinstance(var, am.Link) else "%s>%s@%s" % (var.source.name, var.dest.name, var.dest.pop.name)
+                    var.vals = env.array([env.real("%s|%s|%s|%d" % (type(var).__name__[:4], pop.name, nm, ti), 0, 1e6) for ti in range(T)])
+                    if isinstance(var, am.JunctionCompartment):
+                        var.vals = env.array([0.0] * T)
+                for ch in pop.characs:
+                    ch._vals = None
+            res = ares.Result(model=m, parset=P.parsets[0], name="r")
+            names = [p.name for p in m.pops]
+            for pi, pop in enumerate(m.pops):
+                tx = pop.comp_lookup["tx"]
+                d = apl.PlotData(res, outputs=["tx:", "tx:lost", "tx:tx"], pops=[names[pi]])
+                got = {s.output: list(s.vals) for s in d.series}
+                for ti in range(T - 1):
+                    by_dest = {}
+                    for l in tx.outlinks:
+                        by_dest[l.dest.name] = by_dest.get(l.dest.name, 0.0) + l.vals[ti] / m.dt
+                    total = 0.0
+                    for v in by_dest.values():
+                        total = total + v
+                    env.claim("outflow_is_sum_of_parts|%s|t%d" % (names[pi], ti), env.eq(got["tx:"][ti], got["tx:lost"][ti] + got["tx:tx"][ti]), key="flow_parts")
+                    env.claim("selector_tx:tx_is_the_transfer_out_of_this_population|%s|t%d" % (names[pi], ti), env.eq(got["tx:tx"][ti], by_dest.get("tx", 0.0)), key="flow_selector")
+                    env.claim("selector_tx:_is_everything_leaving|%s|t%d" % (names[pi], ti), env.eq(got["tx:"][ti], total), key="flow_selector")
 
     return body
 
@@ -386,6 +431,7 @@ def specs(tier):
     for op in ("construct", "accumulate_sum", "accumulate_integrate", "time_aggregate"):
         out.append(("purity[%s]" % op, purity_body, dict(op=op)))
     out.append(("interpolation", interpolation_body, dict()))
+    out.append(("flow_selectors[2 populations with transfers]", transfer_flows_body, dict()))
     out.append(("cascade_data[ragged years]", cascade_data_ragged_body, dict()))
     out.append(("cascade_values", cascade_vals_body, dict()))
     out.append(("cascade_adhoc", adhoc_cascade_body, dict()))
